@@ -20,11 +20,11 @@ using namespace tcpadv;
 // second family: a socket object is closed and used for a new connection while packets of its
 // earlier connection are still on their way to it (the earlier peer keeps sending, or has just closed)
 // ---------------------------------------------------------------------------------------------
-struct ReuseCfg { int side; /*0 the connecting socket is re-used, 1 the accepted-into socket*/ int moment; /*0 in the establishment handler, 1 at the first read completion, 2 after 3 ms, 3 after 60 ms*/ int lat_ms; int old_peer_closes; };
+struct ReuseCfg { int side; /*0 the connecting socket is re-used, 1 the accepted-into socket*/ int moment; /*0 in the establishment handler, 1 at the first read completion, 2 after 3 ms, 3 after 60 ms*/ int lat_ms; int old_peer_closes; int via_move = 0; /*1: the connection is not closed but moved into another socket object (which keeps reading); the moved-from object is re-used*/ };
 std::string reuse_str(ReuseCfg const& r)
 {
 	static const char* mo[] = { "in the establishment handler", "at its first read completion", "3 ms after establishment", "60 ms after establishment" };
-	return fmt("reuse of the %s socket %s, route latency %d ms, earlier peer %s", r.side == 0 ? "connecting" : "accepted-into", mo[r.moment], r.lat_ms, r.old_peer_closes ? "closes after its data" : "keeps its socket open");
+	return fmt("reuse of the %s socket %s, route latency %d ms, earlier peer %s", r.side == 0 ? "connecting" : "accepted-into", mo[r.moment], r.lat_ms, r.old_peer_closes ? "closes after its data" : "keeps its socket open") + (r.via_move ? " [the first connection is moved into another socket object instead of being closed; the moved-from object is re-used]" : "");
 }
 inline char rbyte(int stream, int64_t i) { return char((stream * 89 + i * 11 + (i >> 7) * 3 + 5) & 0xff); }
 
@@ -62,12 +62,16 @@ ReuseRes run_reuse(ReuseCfg const& rc)
 		if (eof_R[u]) data_after_eof = true; in_R[u].append(bR.data(), n);
 		if (u == 1 && !first_read_seen) { first_read_seen = true; if (rc.moment == 1) { do_reuse(); return; } }
 		if (u == use) readR(); }); };
+	std::unique_ptr<ip::tcp::socket> session; std::string in_session; std::vector<char> bS(1500); std::function<void()> readS;
+	readS = [&]() { session->async_read_some(asio::buffer(bS), [&](error_code const& ec, std::size_t n) { ++R.handlers; if (ec) return; in_session.append(bS.data(), n); readS(); }); };
 	auto established_first = [&]() { // R's first connection is up
-		readR(); pump(&wR1);
+		readR(); if (!rc.via_move) pump(&wR1); // (a socket may only be moved while it has no operation outstanding)
 		if (rc.moment == 0) do_reuse();
 		else if (rc.moment >= 2) { tm.expires_after(ms(rc.moment == 2 ? 3 : 60)); tm.async_wait([&](error_code const& ec) { if (!ec) do_reuse(); }); } };
 	do_reuse = [&]() {
-		if (reused) return; reused = true; wR1.stopped = true; error_code ig; Rs.close(ig); use = 2;
+		if (reused) return; reused = true; wR1.stopped = true; error_code ig;
+		if (rc.via_move) { session.reset(new ip::tcp::socket(std::move(Rs))); readS(); } else Rs.close(ig);
+		use = 2;
 		if (rc.side == 0) { // the connecting socket dials again; a second accepted socket answers
 			acc.async_accept(sv2, [&](error_code const& ec) { ++R.handlers; if (ec) { fail("establish: second accept: " + ecs(ec)); return; } readP2(); pump(&wP2); });
 			Rs.async_connect(ip::tcp::endpoint(addr("10.0.1.1"), 6000), [&](error_code const& ec) { ++R.handlers; if (ec) { fail("establish: second connect on the re-used socket: " + ecs(ec)); return; } readR(); pump(&wR2); });
@@ -92,9 +96,11 @@ ReuseRes run_reuse(ReuseCfg const& rc)
 	if (in_P2 != s4.substr(0, in_P2.size())) { size_t d = first_diff(in_P2, s4); fail(fmt("carry_over: the new peer received byte %zu = 0x%02x, the re-used socket wrote 0x%02x there on this connection (queued for sending on the earlier connection?)", d, (unsigned char)in_P2[d], (unsigned char)s4[d])); }
 	else if (in_P2.size() != N4) fail(fmt("reuse: the new peer received %zu of %zu bytes", in_P2.size(), N4));
 	if (in_R[1] != s1.substr(0, in_R[1].size())) fail("prefix: the first connection delivered bytes that are not a prefix of what the earlier peer wrote");
+	if (rc.via_move) { std::string all = in_R[1] + in_session; if (all != s1.substr(0, all.size())) fail("prefix: after the first connection was moved into another socket object, what the two objects received is not a prefix of what the peer wrote");
+		else if (all.size() != N1) fail(fmt("moved: the moved connection delivered %zu of the %zu bytes its peer wrote", all.size(), N1)); }
 	if (in_P1 != s2.substr(0, in_P1.size())) fail("prefix: the earlier peer received bytes that are not a prefix of what was written to it on the first connection");
 	R.summary = fmt("first use: in %zu out-delivered %zu; second use: in %zu/%zu out-delivered %zu/%zu, eof %d", in_R[1].size(), in_P1.size(), in_R[2].size(), N3, in_P2.size(), N4, eof_R[2]);
-	error_code ig; wP1.stopped = wP2.stopped = wR2.stopped = true; c1.close(ig); c2.close(ig); sv.close(ig); sv2.close(ig); acc.close(ig); tm.cancel();
+	error_code ig; wP1.stopped = wP2.stopped = wR2.stopped = true; if (session) session->close(ig); c1.close(ig); c2.close(ig); sv.close(ig); sv2.close(ig); acc.close(ig); tm.cancel();
 	try { sim.run(); } catch (std::exception const&) {}
 	return R;
 }
@@ -105,6 +111,7 @@ struct StreamEngine : Engine
 	uint64_t units(Args const& a) override
 	{
 		reuse.clear(); for (int side = 0; side < 2; ++side) for (int m = 0; m < 4; ++m) for (int lat : { 1, 40 }) for (int pc = 0; pc < 2; ++pc) reuse.push_back(ReuseCfg{ side, m, lat, pc });
+		for (int side = 0; side < 2; ++side) for (int lat : { 1, 40 }) for (int pc = 0; pc < 2; ++pc) { ReuseCfg r{ side, 1, lat, pc }; r.via_move = 1; reuse.push_back(r); }
 		cfgs.clear(); N = a.thorough() ? 8 : 6; K = a.thorough() ? 3 : 2;
 		for (int r = 0; r < 3; ++r) for (int wp = 0; wp < N_WPLANS_ALL; ++wp) if (wplan_for_stream(wp)) for (int rp = 0; rp < 7; ++rp) for (int cm = 0; cm < 3; ++cm) for (int d = 0; d < 3; ++d) {
 			if (!a.thorough() && r == 2 && (rp == 0 || wp == 4)) continue; // slow route with 7-byte reads / longest plan: thorough only
